@@ -403,13 +403,17 @@ class ProductState:
         other_outcomes = {}
         if destructive:
             # Get correct Composite Envelope
-            if isinstance(
+            # Custom states are never destroyed, they keep the post POVM state
+            from photon_weave.state.custom_state import CustomState
+
+            destroyed = [s for s in states if not isinstance(s, CustomState)]
+            if len(destroyed) > 0 and isinstance(
                 CompositeEnvelope._instances[self.container.composite_uid], list
             ):
                 other_outcomes = CompositeEnvelope._instances[
                     self.container.composite_uid
-                ][0].measure(*states)
-                for s in states:
+                ][0].measure(*destroyed)
+                for s in destroyed:
                     del other_outcomes[s]
         if C.contractions:
             self.contract()
